@@ -131,6 +131,15 @@ def judge_obs(o, node, bnode, env, k, info, res):
     L = max(L, float(np.abs(X).max()) if N else 1.0)
     tol = TOL * L
     ok, amb = tnode.member(X, envrows, tol, L)
+    if call["target"] == "boundary" and N and any(r.endswith(":aligned") for r in info.get("relations", [])):
+        # operands with collinear edges: where two leaf boundaries coincide the point-set A - B keeps measure-zero pieces
+        # (a closed edge of the removed operand leaves a whisker of A behind) whose points ARE boundary points of the set as
+        # the library defines it, while the twin judges the regularised set.  The twin cannot classify rows on coincident
+        # leaf boundaries (DESIGN 9.2): counted, not judged.  Rows off the level set are judged as before.
+        lf_ = np.abs(np.stack(node.leaf_phis(X, envrows), 0))
+        co_ = ((lf_ <= tol).sum(0) >= 2) & (np.abs(tnode.phi(X, envrows)) <= tol) & ~ok & ~amb
+        res["counters"]["rows_on_coincident_leaf_boundaries"] = res["counters"].get("rows_on_coincident_leaf_boundaries", 0) + int(co_.sum())
+        amb = amb | co_
     abut = any("abut" in r for r in info.get("relations", []))
     mech["abut"] = abut
     if abut and call["target"] == "boundary" and amb.any():
